@@ -207,8 +207,30 @@ def run_vh(vh, args, what, timeout=900):
 def evaluate(vh, mode, args, trace_path, what, scripts=None):
     """Run the harness, judge (V) and conformance-check (C) what it recorded. Returns a dict."""
     t = time.time()
-    summ = run_vh(vh, [mode] + args + ["-out", trace_path], what)
+    extra = ["-wait-ms", os.environ["VERIF_BID_WAIT_MS"]] if (mode == "replay" and os.environ.get("VERIF_BID_WAIT_MS")) else []
+    summ = run_vh(vh, [mode] + args + extra + ["-out", trace_path], what)
     by, order = read_trace(trace_path)
+    # a forced replay that left its script or did not finish (a wait timed out: machine stalled, or the code really
+    # deviates) is repeated once in isolation with a longer timeout before it counts
+    bad = [o["sid"] for o in summ["outcomes"] if o["status"] != "ok"]
+    if mode == "replay" and scripts and bad and len(bad) <= 2000:
+        rp = trace_path + ".retry.scripts"
+        with open(rp, "w") as fh:
+            for sid in bad:
+                fh.write(json.dumps({"sid": sid, "steps": scripts[sid]}) + "\n")
+        s2 = run_vh(vh, ["replay", "-scripts", rp, "-workers", "2", "-wait-ms", "60000", "-out", trace_path + ".retry"], what + " (retry)", timeout=3000)
+        by2, order2 = read_trace(trace_path + ".retry")
+        again = {o["sid"]: o for o in s2["outcomes"]}
+        vlib.log("[C13] %s: %d execution(s) repeated in isolation, %d fine now" % (what, len(bad), sum(1 for o in again.values() if o["status"] == "ok")))
+        summ["outcomes"] = [again.get(o["sid"], o) for o in summ["outcomes"]]
+        for sid in bad:
+            if sid in by:
+                del by[sid]
+                order.remove(sid)
+            if sid in by2:
+                by[sid] = by2[sid]
+                order.append(sid)
+        summ["lines"] = sum(len(v) for v in by.values())
     t1 = time.time()
     with cf.ThreadPoolExecutor(max_workers=2) as ex:
         fv = ex.submit(judge, by, order, what)
@@ -491,7 +513,7 @@ def run(pid, tier, seed, replay):
     nrounds, nper = (12, 3000) if thorough else (1, 1500)
     for k in range(nrounds):
         s = seed * 7919 + k
-        thunks.append(lambda s=s, k=k: evaluate(vh, "random", ["-seed", str(s), "-n", str(nper), "-workers", "16"],
+        thunks.append(lambda s=s, k=k: evaluate(vh, "random", ["-seed", str(s), "-n", str(nper), "-workers", "16", "-wait-ms", "60000"],
                                                 os.path.join(work, "free%d.ndjson" % k),
                                                 "free-running randomised driver (seed %d)" % s))
     if thorough:
